@@ -12,6 +12,9 @@
 (*   [t |-> "bfrange", lo, hi, tgt]        <lo> <hi> <tgt>                 *)
 (*   [t |-> "bfrarr",  lo, hi, arr]        <lo> <hi> [<t1> <t2> ..]        *)
 (*   [t |-> "endcmap"], [t |-> "begincmap"]                                *)
+(*   [t |-> "junkchar", lo] / [t |-> "junkrange", lo, hi]   sections with  *)
+(*       an incomplete operand group (<lo> alone / <lo> <hi> without a     *)
+(*       target): tolerated, the incomplete group defines nothing          *)
 (* Targets are byte strings (UTF-16BE); turning bytes into text is left to *)
 (* the platform codec on both sides.                                       *)
 (*                                                                         *)
@@ -90,6 +93,7 @@ S0 == [map |-> [c \in CidDom |-> Undef], incmap |-> TRUE]
 Apply(s, e) ==
   CASE e.t = "begincmap" -> [s EXCEPT !.incmap = TRUE]
     [] e.t = "endcmap" -> [s EXCEPT !.incmap = FALSE]
+    [] e.t \in {"junkchar", "junkrange"} -> s          \* choplist drops the incomplete group
     [] ~s.incmap -> s
     [] e.t = "bfchar" -> [s EXCEPT !.map = Put(s.map, e.lo, e.tgt)]
     [] e.t = "bfrange" -> [s EXCEPT !.map = PutRange(s.map, e, 0, e.hi - e.lo + 1)]
@@ -102,9 +106,10 @@ Read(e) == Len(ents) < MaxEnt /\ ents' = Append(ents, e) /\ st' = Apply(st, e)
 ABfChar == Len(ents) < MaxEnt /\ \E e \in Entries : e.t = "bfchar" /\ Read(e)
 ABfRange == Len(ents) < MaxEnt /\ \E e \in Entries : e.t = "bfrange" /\ Read(e)
 ABfRangeArray == Len(ents) < MaxEnt /\ \E e \in Entries : e.t = "bfrarr" /\ Read(e)
+AJunk == Len(ents) < MaxEnt /\ \E e \in Entries : e.t \in {"junkchar", "junkrange"} /\ Read(e)
 AEndCMap == Len(ents) < MaxEnt /\ \E e \in Entries : e.t = "endcmap" /\ Read(e)
 ABeginCMap == Len(ents) < MaxEnt /\ \E e \in Entries : e.t = "begincmap" /\ Read(e)
-Next == ABfChar \/ ABfRange \/ ABfRangeArray \/ AEndCMap \/ ABeginCMap
+Next == ABfChar \/ ABfRange \/ ABfRangeArray \/ AJunk \/ AEndCMap \/ ABeginCMap
 Spec == Init /\ [][Next]_vars
 
 ToUnicodeRef == st.map = RefMap(ents)
